@@ -5,6 +5,7 @@ import (
 	"errors"
 	"fmt"
 	"math/rand/v2"
+	"reflect"
 	"runtime"
 	"sort"
 	"strconv"
@@ -132,6 +133,7 @@ type c17OnceObs struct {
 	// a second constructor, of values of an interface type, whose result is the nil interface for
 	// every key, and a third one that returns a nil pointer: how often they ran per key
 	ctorNilIface, ctorNilPtr []int32
+	valueFault               string
 }
 
 func spinC17(n int) {
@@ -171,6 +173,15 @@ func runC17Once(c c17OnceCase, rec *c17Recorder) (o c17OnceObs) {
 		ctorNP[k].Add(1)
 		return nil
 	})
+	// a constructor whose value (of interface type) is itself a function: it is a value, handed
+	// out as it is and never called by the library
+	var thunkCalls atomic.Int32
+	var valueFault atomic.Value // string: the first wrong value a special constructor's Get returned
+	thunks := make([]func() any, o.nkeys)
+	for k := range thunks {
+		thunks[k] = func() any { thunkCalls.Add(1); return k }
+	}
+	ocThunk := syncutil.NewOnceConstructor(func(k int) any { return thunks[k] })
 	oc := syncutil.NewOnceConstructor(func(k int) *c17Val {
 		rec.log("S%d", k)
 		n := ctor[k].Add(1)
@@ -242,12 +253,18 @@ func runC17Once(c c17OnceCase, rec *c17Recorder) (o c17OnceObs) {
 				atomic.StoreInt64(&starts[cl.tid], time.Now().UnixNano())
 				v := oc.Get(cl.key)
 				end := time.Now().UnixNano()
-				// "nothing" is a value like any other: constructed once
+				// "nothing" is a value like any other: constructed once; a function is a value too
 				if err := ocNilIface.Get(cl.key); err != nil {
-					panic("the nil-interface constructor's value came back as non-nil")
+					valueFault.CompareAndSwap(nil, "the nil-interface constructor's value came back as non-nil")
 				}
 				if p := ocNilPtr.Get(cl.key); p != nil {
-					panic("the nil-pointer constructor's value came back as non-nil")
+					valueFault.CompareAndSwap(nil, "the nil-pointer constructor's value came back as non-nil")
+				}
+				if f, ok := ocThunk.Get(cl.key).(func() any); !ok || reflect.ValueOf(f).Pointer() != reflect.ValueOf(thunks[cl.key]).Pointer() {
+					valueFault.CompareAndSwap(nil, "a constructed value of type func() any did not come back as that function")
+				}
+				if thunkCalls.Load() != 0 {
+					valueFault.CompareAndSwap(nil, "a constructed value of type func() any was called by OnceConstructor")
 				}
 				if v == nil {
 					rec.log("R%d:%d:-", cl.tid, cl.key)
@@ -287,6 +304,9 @@ func runC17Once(c c17OnceCase, rec *c17Recorder) (o c17OnceObs) {
 
 	mu.Lock()
 	defer mu.Unlock()
+	if v, _ := valueFault.Load().(string); v != "" {
+		o.valueFault = v
+	}
 	for k := range ctor {
 		o.ctor[k] = ctor[k].Load()
 		o.ctorNilIface = append(o.ctorNilIface, ctorNI[k].Load())
@@ -375,6 +395,8 @@ func evalC17OnceRun(c c17OnceCase) Result {
 	switch {
 	case o.panicked:
 		direct = fail("once-panic", "Get panicked: %s", o.panicMsg)
+	case o.valueFault != "":
+		direct = fail("value-kind", "%s", o.valueFault)
 	case !o.noblock:
 		direct = fail("cross-block", "calls on fast keys did not return while the constructors of %v were in progress", keysOfC17(c.slow))
 	case doneN != o.total:
